@@ -49,8 +49,10 @@ def probe(world, e):
     def ptuple(p, tags=True):
         if p is None:
             return None
-        t = [world.canon_path(p.dir), world.canon_table(p.name, p.dir, p.tablefile)]
-        return [_si(world, p)] + t + ([sorted(str(x) for x in p.tags)] if tags else [])
+        si = _si(world, p)
+        t = [world.canon_path(p.dir), world.canon_table(p.name, p.dir, p.tablefile,
+                                                         (si, p.flavor, p.version) if isinstance(si, int) else None)]
+        return [si] + t + ([sorted(str(x) for x in p.tags)] if tags else [])
     out = {"cache": {}, "files": {}}
     for n in NAMES:
         out["cache"]["list/" + n] = sorted([[p.version, p.flavor] + ptuple(p) for p in e.findProducts(n)])
